@@ -5,6 +5,7 @@
 #include <algorithm>
 #include <cctype>
 #include <iterator>
+#include <limits>
 #include <vector>
 
 #include "../Exceptions.h"
@@ -219,7 +220,19 @@ int toInt(const std::string& s, char scientificNotation)
 {
   if (!isDecimalInteger(s, scientificNotation))
     throw Exception("TextTools::toInt(). Invalid number specification: " + s);
-  return fromString<int>(s);
+  std::size_t sciPos = s.find(scientificNotation);
+  if (sciPos == std::string::npos)
+    return fromString<int>(s);
+  // Scientific notation: the stream conversion stops at the exponent character, so apply the exponent here.
+  long long value = fromString<long long>(s.substr(0, sciPos));
+  int exponent = fromString<int>(s.substr(sciPos + 1));
+  for (int k = 0; k < exponent && value != 0; ++k)
+  {
+    value *= 10;
+    if (value > std::numeric_limits<int>::max() || value < std::numeric_limits<int>::min())
+      throw Exception("TextTools::toInt(). Number out of range: " + s);
+  }
+  return static_cast<int>(value);
 }
 
 /******************************************************************************/
